@@ -19,7 +19,7 @@ INVS = {
     "C03": {"ExtAllAncestors", "ExtAllBytes", "ExtDepthBound", "SuccessComplete", "SuccessBytes", "RootTagged",
             "ReturnedRoot"},
     "C04": {"InFlightSrc", "InFlightDst", "PushOnce", "BlobFetchOnce", "CbPreOnce", "CbPostAfterPre",
-            "CbMountedGrammar", "CbSkippedAlone", "CbSkippedPresent", "CbPostAfterSuccessors", "CbPostAfterPush",
+            "CbMountedGrammar", "CbMountedPresent", "CbSkippedAlone", "CbSkippedPresent", "CbPostAfterSuccessors", "CbPostAfterPush",
             "CallbackErrorReturned", "TransferredNotified", "Quiescent"},
 }
 MACHINERY = {"KnownNode", "DstMonotone"}   # a failure of these is a harness defect, never a verdict
@@ -169,6 +169,10 @@ def judge(ctx, outdir, summ, invs, confirm=True):
     bad_machinery = [v for v in viol if v["inv"] in MACHINERY]
     if bad_machinery:
         raise Infra("harness self-check failed: %s" % bad_machinery[:3])
+    known = set().union(*INVS.values()) | MACHINERY
+    unowned = sorted({v["inv"] for v in viol} - known)
+    if unowned:
+        raise Infra("judgements of CopyMon.tla that no property owns failed: %s" % unowned)
     idx = scen_index(outdir)
     mine = [v for v in viol if v["inv"] in invs]
     other = [v for v in viol if v["inv"] not in invs]
